@@ -1498,8 +1498,19 @@ static int __mcount_entry(unsigned long *parent_loc, unsigned long child, struct
 	tr.flags = 0;
 	filtered = mcount_entry_filter_check(mtdp, child, &tr);
 	if (filtered != FILTER_IN) {
-		mcount_unguard_recursion(mtdp);
-		return -1;
+		/*
+		 * A trigger might have changed the filter state before it was
+		 * filtered out (by location or depth).  Then it needs a (no-record)
+		 * frame like cygprof_entry() does, so that mcount_exit() restores
+		 * the state.  Otherwise the change would leak to the siblings.
+		 */
+		bool changed = tr.flags & (TRIGGER_FL_FILTER | TRIGGER_FL_DEPTH |
+					   TRIGGER_FL_TIME_FILTER | TRIGGER_FL_SIZE_FILTER);
+
+		if (filtered == FILTER_RSTACK || !changed) {
+			mcount_unguard_recursion(mtdp);
+			return -1;
+		}
 	}
 
 	if (unlikely(mtdp->in_exception)) {
@@ -1531,7 +1542,7 @@ static int __mcount_entry(unsigned long *parent_loc, unsigned long child, struct
 	rstack->child_ip = child;
 	rstack->start_time = mcount_gettime();
 	rstack->end_time = 0;
-	rstack->flags = 0;
+	rstack->flags = filtered == FILTER_IN ? 0 : MCOUNT_FL_NORECORD;
 	rstack->nr_events = 0;
 	rstack->event_idx = ARGBUF_SIZE;
 
